@@ -55,6 +55,8 @@ type Engine struct {
 	ufs       map[string]bool
 	ufApps    []ufApp
 	failSeq   int
+	tracking  bool
+	writes    int
 	realSeq   int // > 0: realisation run for the failure with this ordinal
 	obsVals   []obs
 	complete  bool // completion mode: never queue alternatives
@@ -372,26 +374,18 @@ func (e *Engine) failAt(kind, label, site, negCond string) {
 	}
 	f := e.newFailure(kind, label, site)
 	cond := negCond
-	for _, k := range e.known {
-		if !k.matches(&f) {
-			continue
-		}
-		when, ok := k.instantiate(e)
-		if !ok {
-			continue
-		}
+	if when, what := e.knownClass(&f); when != "" {
 		nc := "(not " + when + ")"
 		if negCond != "" {
 			nc = "(and " + negCond + " " + nc + ")"
 		}
 		if !e.solver.check(nc) {
-			f.Known = k.What
+			f.Known = what
 			_, f.Model = e.model(negCond)
 			e.fails = append(e.fails, f)
-			return // entirely inside the known input class: keep exploring this path
+			return // entirely inside the known input classes: keep exploring this path
 		}
 		cond = nc
-		break
 	}
 	if e.realSeq == 0 {
 		// first sight: the path is re-run in realisation mode (runPath) to obtain one fully concrete pre-state
